@@ -758,6 +758,14 @@ class Sys:
             outs.append((st, ready(res)))
             return outs
         if kind == 'started':
+            pend = fut.extra.get('pend', 0)
+            if pend < self.user_script.get(('pending', kind), 0):
+                # started() suspends once before it completes
+                ex = dict(fut.extra)
+                ex['pend'] = pend + 1
+                _store(e, st, ref, VAgg(name='leaf', fields=fut.fields, extra=ex))
+                st.event('user_pending', kind, n, fut.extra.get('actor'), '')
+                return [(st, PENDING)]
             self.run_started_script(st, fut)
             r = self.user_script.get(('started', n), 'ok')
             st.event('user_done', kind, n, fut.extra.get('actor'), r)
